@@ -49,5 +49,6 @@ theorem getStorageMetadataShape : Facts.getStorageMetadataShape = Spec.getStorag
 theorem sendBodySites : Facts.sendBodySites = Spec.sendBodySites := by rfl
 theorem runSizeLimiterShape : Facts.runSizeLimiterShape = Spec.runSizeLimiterShape := by rfl
 theorem cachingFuncCalls : Facts.cachingFuncCalls = Spec.cachingFuncCalls := by rfl
+theorem readMappingShape : Facts.readMappingShape = Spec.readMappingShape := by rfl
 
 end Pins
